@@ -30,6 +30,7 @@ PROPS = {
  'C10': dict(scope=set(F['pubsub'] + ['ping']), bridge=sigs(F['pubsub']) + ['pubsubAllowed_eq', 'msg_BAD_COMMAND_IN_PUBSUB_MSG_eq'],
              theorems=[]),
  'C11': dict(scope=None, bridge=sigs(['blpop', 'brpop', 'brpoplpush', 'rpush', 'lpush', 'move', 'swapdb']) + ['const_Timeout_eq'], theorems=[]),
+ 'C12': dict(scope=None, bridge=['sigs_same_names'], theorems=[]),
  'C13': dict(scope=None, bridge=sigs(['select', 'move', 'swapdb', 'flushall', 'flushdb', 'dbsize', 'echo', 'ping', 'time', 'save',
                                       'bgsave', 'lastsave']) + ['const_DbIndex_eq'], theorems=[]),
  'C20': dict(scope=None, bridge=['msg_CONNECTION_ERROR_MSG_eq', 'sigs_same_names'], theorems=[]),
